@@ -22,7 +22,7 @@ BOUNDS = {
     "quick": "one_hot_mux / OneHotMux / OneHotMux.create: 0..4 inputs (2-bit, struct, multi-bit select), priority x default; "
              "MultiPriorityEncoder width 1..8 x outputs 1..3 (+create); RingMultiPriorityEncoder width 2..6 x outputs 1..2; "
              "StableSelectingNetwork n 1..6 (2-bit payload); coding module widths 1..8",
-    "thorough": "muxes 0..6 inputs; MultiPriorityEncoder width 1..12 x outputs 1..4; RingMultiPriorityEncoder width 2..9 x outputs 1..3; "
+    "thorough": "muxes 0..6 inputs; MultiPriorityEncoder width 1..16 x outputs 1..4; RingMultiPriorityEncoder width 2..12 x outputs 1..3; "
                 "StableSelectingNetwork n 1..9, payload 1..3 bits; coding module widths 1..16",
 }
 OUTSIDE = ["non-priority one_hot_mux / OneHotMux with more than one select bit set (documented as undefined)",
@@ -62,14 +62,14 @@ def configs(tier, seed):
         out.append(dict(group="ohm_fn", n=2, prio=prio, dflt=False, kind="struct", selw=1))
         out.append(dict(group="ohm_create", n=3, prio=prio, dflt=True))
         out.append(dict(group="ohm_create", n=2, prio=prio, dflt=False))
-    for w in range(1, (8 if q else 12) + 1):
+    for w in range(1, (8 if q else 16) + 1):
         for k in range(1, (3 if q else 4) + 1):
             if not q and w > 10 and k > 3:
                 continue
             out.append(dict(group="mpe", w=w, k=k, create=False))
     out.append(dict(group="mpe", w=5, k=2, create=True))
     out.append(dict(group="mpe", w=4, k=1, create=True))
-    for w in range(2, (6 if q else 9) + 1):
+    for w in range(2, (6 if q else 12) + 1):
         for k in range(1, (2 if q else 3) + 1):
             out.append(dict(group="ring", w=w, k=k))
     for n in range(1, (6 if q else 9) + 1):
